@@ -380,6 +380,70 @@ def createMultiTagW (g : Graph) (blockPath : Path) (name type : String) (pos ext
                 if ecreated then dropAuto h1 ek else h1
               mtagTail g2 undo o.key name type pk ek
 
+/-! ## `LinkContainer.extend`
+
+`extend(items)` checks every item (`_accept`, the checks of `append`) before the first link is
+written, then links them in order. `contExtendLoopW` is the loop of `append` calls the method used
+to be: it refuses a later item after the leading ones have been linked. -/
+
+/-- the checks of `LinkContainer.append` / `SourceLinkContainer.append` (`_accept`): the entity to be
+linked and its id -/
+def acceptItem (g : Graph) (c : Cont) (key : Key) : Except Err (Nat × String) :=
+  match c.info.flavour with
+  | .link | .sourceLink =>
+    let item? : Except Err Nat :=
+      match key with
+      | .ent k => .ok k
+      | .str x =>
+        if isUuid x then
+          match getById g c.node x with
+          | some l => .ok l.2
+          | none => .error .keyError
+        else .error .typeError
+      | .pos _ => .error .typeError
+    match item? with
+    | .error e => .error e
+    | .ok k =>
+      match g.entityId k with
+      | none => .error .typeError
+      | some id =>
+        let accepted : Except Err Bool :=
+          match c.info.flavour, c.block with
+          | .link, some b =>
+            if kindOf g k != c.info.item then .error .typeError
+            else
+              match g.getAttr k "name" with
+              | some nm =>
+                match getByName g (g.child? b c.info.store) nm with
+                | some l => .ok (l.2 == k)
+                | none => .ok false
+              | none => .ok false
+          | .sourceLink, some b => .ok (inSourceTree g b id)
+          | _, _ => .ok false
+        match accepted with
+        | .error e => .error e
+        | .ok false => .error .runtimeError
+        | .ok true => .ok (k, id)
+  | _ => .error .attributeError
+
+/-- `self._backend.create_link(item, item.id)` -/
+def linkItem (g : Graph) (c : Cont) (it : Nat × String) : Graph :=
+  let (g1, cn) := g.ensureGroup c.owner.key c.cname
+  createLinkIn g1 cn it.2 it.1
+
+def contExtendW (g : Graph) (c : Cont) (keys : List Key) : Reached :=
+  match keys.mapM (acceptItem g c) with
+  | .error e => (g, some e)
+  | .ok items => (items.foldl (fun h it => linkItem h c it) g, none)
+
+/-- the former implementation: `for item in items: self.append(item)` -/
+def contExtendLoopW (g : Graph) (c : Cont) : List Key → Reached
+  | [] => (g, none)
+  | key :: rest =>
+    match acceptItem g c key with
+    | .error e => (g, some e)
+    | .ok it => contExtendLoopW (linkItem g c it) c rest
+
 /-! ## operations -/
 
 inductive OpW where
